@@ -446,27 +446,291 @@ type fnInfo struct {
 
 var fnInfos = map[*ssa.Function]*fnInfo{}
 
-func reachableFromEntry(fn *ssa.Function, cutFrom, cutTo *ssa.BasicBlock) map[*ssa.BasicBlock]bool {
-	seen := map[*ssa.BasicBlock]bool{}
-	if len(fn.Blocks) == 0 {
+// tnode is a node of the jump-threaded view of a function's control-flow
+// graph: a basic block, or (only >= 0) the copy of a block entered over an edge
+// that decides the block's final branch - a branch on a phi of this block whose
+// incoming value on that edge is a constant (or a known non-nil error). Such a
+// copy has the single successor Succs[only]. The view removes the infeasible
+// paths that a merged result variable (`err` set on several paths and tested
+// after the merge, the result of an expanded helper) would otherwise add.
+type tnode struct {
+	b    *ssa.BasicBlock
+	only int
+}
+
+type edgeKey struct{ from, to *ssa.BasicBlock }
+
+var threadMemo = map[edgeKey]int{}
+
+// threadOutcome returns the successor index of s that control takes when s is
+// entered from p, or -1 when the edge does not decide it.
+func threadOutcome(p, s *ssa.BasicBlock) int {
+	k := edgeKey{p, s}
+	if v, ok := threadMemo[k]; ok {
+		return v
+	}
+	threadMemo[k] = -1 // cycles: undecided
+	v := threadOutcome1(p, s)
+	threadMemo[k] = v
+	return v
+}
+
+func threadOutcome1(p, s *ssa.BasicBlock) int {
+	if len(s.Instrs) == 0 || len(s.Succs) != 2 || s.Succs[0] == s.Succs[1] {
+		return -1
+	}
+	ifi, ok := s.Instrs[len(s.Instrs)-1].(*ssa.If)
+	if !ok {
+		return -1
+	}
+	idx := -1
+	n := 0
+	for i, pr := range s.Preds {
+		if pr == p {
+			idx = i
+			n++
+		}
+	}
+	if idx < 0 || n != 1 {
+		return -1
+	}
+	var eval func(c ssa.Value) (val, known bool)
+	eval = func(c ssa.Value) (bool, bool) {
+		switch c := c.(type) {
+		case *ssa.Phi:
+			if c.Block() != s || idx >= len(c.Edges) {
+				return false, false
+			}
+			return ConstBool(c.Edges[idx])
+		case *ssa.UnOp:
+			if c.Op == token.NOT {
+				v, ok := eval(c.X)
+				return !v, ok
+			}
+		case *ssa.BinOp:
+			if c.Op != token.EQL && c.Op != token.NEQ {
+				return false, false
+			}
+			var other ssa.Value
+			if IsNilConst(c.Y) {
+				other = c.X
+			} else if IsNilConst(c.X) {
+				other = c.Y
+			} else {
+				return false, false
+			}
+			phi, ok := other.(*ssa.Phi)
+			if !ok || phi.Block() != s || idx >= len(phi.Edges) {
+				return false, false
+			}
+			in := phi.Edges[idx]
+			if IsNilConst(in) {
+				return c.Op == token.EQL, true
+			}
+			if _, isPhi := in.(*ssa.Phi); isPhi {
+				return false, false
+			}
+			if possible, known := MayBeNil(in); known && !possible {
+				return c.Op == token.NEQ, true
+			}
+			// tested on the way in
+			for _, g := range append(directGuardsOfEdge(p, s), plainGuards(p)...) {
+				bo, ok := g.Cond.(*ssa.BinOp)
+				if !ok || (bo.Op != token.EQL && bo.Op != token.NEQ) {
+					continue
+				}
+				var t ssa.Value
+				if IsNilConst(bo.Y) {
+					t = bo.X
+				} else if IsNilConst(bo.X) {
+					t = bo.Y
+				}
+				if t != nil && t == in {
+					isNil := (bo.Op == token.EQL) == g.Val
+					return (c.Op == token.EQL) == isNil, true
+				}
+			}
+		}
+		return false, false
+	}
+	v, known := eval(ifi.Cond)
+	if !known {
+		// the same comparison was already decided on the way in (a second `err != nil` after
+		// `if err != nil && ...`): go/ssa does not share the two, the operands are the same values
+		for _, g := range append(directGuardsOfEdge(p, s), plainGuards(p)...) {
+			if same, inv := SameCond(g.Cond, ifi.Cond); same {
+				v, known = g.Val != inv, true
+				break
+			}
+		}
+	}
+	if !known {
+		return -1
+	}
+	if v {
+		return 0
+	}
+	return 1
+}
+
+// SameCond reports whether two conditions always have the same value (same
+// comparison of the same operands), or always opposite values (inv).
+func SameCond(a, b ssa.Value) (same, inv bool) {
+	if a == b {
+		return true, false
+	}
+	if u, ok := a.(*ssa.UnOp); ok && u.Op == token.NOT {
+		s, i := SameCond(u.X, b)
+		return s, !i
+	}
+	if u, ok := b.(*ssa.UnOp); ok && u.Op == token.NOT {
+		s, i := SameCond(a, u.X)
+		return s, !i
+	}
+	x, ok1 := a.(*ssa.BinOp)
+	y, ok2 := b.(*ssa.BinOp)
+	if !ok1 || !ok2 {
+		return false, false
+	}
+	sameOps := func(p, q ssa.Value) bool {
+		if p == q {
+			return true
+		}
+		cp, ok1 := p.(*ssa.Const)
+		cq, ok2 := q.(*ssa.Const)
+		if ok1 && ok2 {
+			if cp.Value == nil || cq.Value == nil {
+				return cp.Value == nil && cq.Value == nil && types.Identical(cp.Type(), cq.Type())
+			}
+			return cp.Value.ExactString() == cq.Value.ExactString() && types.Identical(cp.Type(), cq.Type())
+		}
+		return false
+	}
+	neg := map[token.Token]token.Token{token.EQL: token.NEQ, token.NEQ: token.EQL, token.LSS: token.GEQ, token.GEQ: token.LSS, token.GTR: token.LEQ, token.LEQ: token.GTR}
+	flip := map[token.Token]token.Token{token.EQL: token.EQL, token.NEQ: token.NEQ, token.LSS: token.GTR, token.GTR: token.LSS, token.LEQ: token.GEQ, token.GEQ: token.LEQ}
+	if _, isCmp := neg[x.Op]; !isCmp {
+		return false, false
+	}
+	if _, isCmp := neg[y.Op]; !isCmp {
+		return false, false
+	}
+	if sameOps(x.X, y.X) && sameOps(x.Y, y.Y) {
+		if x.Op == y.Op {
+			return true, false
+		}
+		if neg[x.Op] == y.Op {
+			return true, true
+		}
+	}
+	if sameOps(x.X, y.Y) && sameOps(x.Y, y.X) {
+		if flip[x.Op] == y.Op {
+			return true, false
+		}
+		if neg[flip[x.Op]] == y.Op {
+			return true, true
+		}
+	}
+	return false, false
+}
+
+// directGuardsOfEdge: the final branch of p, if the edge p->s is one of its outcomes.
+func directGuardsOfEdge(p, s *ssa.BasicBlock) []Guard {
+	if len(p.Instrs) == 0 {
+		return nil
+	}
+	if ifi, ok := p.Instrs[len(p.Instrs)-1].(*ssa.If); ok && len(p.Succs) == 2 && p.Succs[0] != p.Succs[1] {
+		return []Guard{{Cond: ifi.Cond, Val: p.Succs[0] == s, If: ifi}}
+	}
+	return nil
+}
+
+var plainInfos = map[*ssa.Function]map[*ssa.BasicBlock][]Guard{}
+
+// plainGuards: edge dominance on the plain (unthreaded) graph; used while the
+// threaded view itself is being built.
+func plainGuards(b *ssa.BasicBlock) []Guard {
+	fn := b.Parent()
+	if m, ok := plainInfos[fn]; ok {
+		return m[b]
+	}
+	m := map[*ssa.BasicBlock][]Guard{}
+	plainInfos[fn] = m
+	reach := func(cutFrom, cutTo *ssa.BasicBlock) map[*ssa.BasicBlock]bool {
+		seen := map[*ssa.BasicBlock]bool{fn.Blocks[0]: true}
+		stack := []*ssa.BasicBlock{fn.Blocks[0]}
+		for len(stack) > 0 {
+			x := stack[len(stack)-1]
+			stack = stack[:len(stack)-1]
+			for _, t := range x.Succs {
+				if x == cutFrom && t == cutTo {
+					continue
+				}
+				if !seen[t] {
+					seen[t] = true
+					stack = append(stack, t)
+				}
+			}
+		}
 		return seen
 	}
-	stack := []*ssa.BasicBlock{fn.Blocks[0]}
-	seen[fn.Blocks[0]] = true
+	all := reach(nil, nil)
+	for _, d := range fn.Blocks {
+		if len(d.Instrs) == 0 || len(d.Succs) != 2 || d.Succs[0] == d.Succs[1] {
+			continue
+		}
+		ifi, ok := d.Instrs[len(d.Instrs)-1].(*ssa.If)
+		if !ok {
+			continue
+		}
+		for side := 0; side < 2; side++ {
+			r := reach(d, d.Succs[side])
+			for x := range all {
+				if !r[x] {
+					m[x] = append(m[x], Guard{Cond: ifi.Cond, Val: side == 0, If: ifi})
+				}
+			}
+		}
+	}
+	return m[b]
+}
+
+func (n tnode) succs() []tnode {
+	var out []tnode
+	if n.only >= 0 {
+		t := n.b.Succs[n.only]
+		return append(out, tnode{t, threadOutcome(n.b, t)})
+	}
+	for _, t := range n.b.Succs {
+		out = append(out, tnode{t, threadOutcome(n.b, t)})
+	}
+	return out
+}
+
+func reachableFromEntry(fn *ssa.Function, cutFrom, cutTo *ssa.BasicBlock) map[*ssa.BasicBlock]bool {
+	reached := map[*ssa.BasicBlock]bool{}
+	if len(fn.Blocks) == 0 {
+		return reached
+	}
+	seen := map[tnode]bool{}
+	start := tnode{fn.Blocks[0], -1}
+	stack := []tnode{start}
+	seen[start] = true
+	reached[start.b] = true
 	for len(stack) > 0 {
-		b := stack[len(stack)-1]
+		n := stack[len(stack)-1]
 		stack = stack[:len(stack)-1]
-		for _, s := range b.Succs {
-			if b == cutFrom && s == cutTo {
+		for _, s := range n.succs() {
+			if n.b == cutFrom && s.b == cutTo {
 				continue
 			}
 			if !seen[s] {
 				seen[s] = true
+				reached[s.b] = true
 				stack = append(stack, s)
 			}
 		}
 	}
-	return seen
+	return reached
 }
 
 func infoOf(fn *ssa.Function) *fnInfo {
@@ -501,9 +765,9 @@ func infoOf(fn *ssa.Function) *fnInfo {
 	return fi
 }
 
-// BlockGuards returns the branch outcomes that dominate block b (edge dominance:
+// directGuards returns the branch outcomes that dominate block b (edge dominance:
 // b is unreachable from the entry once that edge is removed).
-func BlockGuards(b *ssa.BasicBlock) []Guard {
+func directGuards(b *ssa.BasicBlock) []Guard {
 	fi := infoOf(b.Parent())
 	var out []Guard
 	for _, d := range b.Parent().Blocks {
@@ -522,6 +786,166 @@ func BlockGuards(b *ssa.BasicBlock) []Guard {
 	return out
 }
 
+type guardKey struct {
+	c ssa.Value
+	v bool
+}
+
+var (
+	expGuards = map[*ssa.BasicBlock][]Guard{}
+	expBusy   = map[*ssa.BasicBlock]bool{}
+)
+
+// BlockGuards returns the branch outcomes that hold whenever block b runs:
+// the outcomes of dominating edges, plus what those imply. A branch on a
+// value that merges several outcomes (a boolean or error phi: `ok := a && b`,
+// the result variable of an expanded helper, `err` set on several paths)
+// implies whatever holds on every incoming edge that can produce the tested
+// outcome.
+func BlockGuards(b *ssa.BasicBlock) []Guard {
+	if g, ok := expGuards[b]; ok {
+		return g
+	}
+	direct := directGuards(b)
+	if expBusy[b] {
+		return direct
+	}
+	expBusy[b] = true
+	out := append([]Guard{}, direct...)
+	seen := map[guardKey]bool{}
+	for _, g := range out {
+		seen[guardKey{g.Cond, g.Val}] = true
+	}
+	for i := 0; i < len(out) && i < 400; i++ {
+		for _, d := range deriveGuards(out[i]) {
+			k := guardKey{d.Cond, d.Val}
+			if !seen[k] {
+				seen[k] = true
+				out = append(out, d)
+			}
+		}
+	}
+	delete(expBusy, b)
+	if len(expBusy) == 0 {
+		expGuards[b] = out
+	}
+	return out
+}
+
+// EdgeGuards returns what holds when control passes from block from to its
+// successor to.
+func EdgeGuards(from, to *ssa.BasicBlock) []Guard {
+	out := append([]Guard{}, BlockGuards(from)...)
+	if len(from.Instrs) > 0 {
+		if ifi, ok := from.Instrs[len(from.Instrs)-1].(*ssa.If); ok && from.Succs[0] != from.Succs[1] {
+			out = append(out, Guard{Cond: ifi.Cond, Val: from.Succs[0] == to, If: ifi})
+		}
+	}
+	return out
+}
+
+func deriveGuards(g Guard) []Guard {
+	switch c := g.Cond.(type) {
+	case *ssa.UnOp:
+		if c.Op == token.NOT {
+			return []Guard{{Cond: c.X, Val: !g.Val, If: g.If}}
+		}
+	case *ssa.Phi:
+		return phiImplied(c, g, func(v ssa.Value, eg []Guard) (possible bool, extra *Guard) {
+			if k, ok := ConstBool(v); ok {
+				return k == g.Val, nil
+			}
+			for _, x := range eg {
+				if x.Cond == v && x.Val != g.Val {
+					return false, nil
+				}
+			}
+			return true, &Guard{Cond: v, Val: g.Val, If: g.If}
+		})
+	case *ssa.BinOp:
+		if c.Op != token.EQL && c.Op != token.NEQ {
+			return nil
+		}
+		var other ssa.Value
+		if IsNilConst(c.Y) {
+			other = c.X
+		} else if IsNilConst(c.X) {
+			other = c.Y
+		} else {
+			return nil
+		}
+		phi, ok := other.(*ssa.Phi)
+		if !ok {
+			return nil
+		}
+		wantNil := (c.Op == token.EQL) == g.Val
+		return phiImplied(phi, g, func(v ssa.Value, eg []Guard) (bool, *Guard) {
+			if IsNilConst(v) {
+				return wantNil, nil
+			}
+			// decided by a test of the same value on the way in
+			for _, x := range eg {
+				if bo, ok := x.Cond.(*ssa.BinOp); ok && (bo.Op == token.EQL || bo.Op == token.NEQ) {
+					var tested ssa.Value
+					if IsNilConst(bo.Y) {
+						tested = bo.X
+					} else if IsNilConst(bo.X) {
+						tested = bo.Y
+					}
+					if tested != nil && tested == v {
+						isNil := (bo.Op == token.EQL) == x.Val
+						return isNil == wantNil, nil
+					}
+				}
+			}
+			if _, isPhi := v.(*ssa.Phi); !isPhi {
+				if possible, known := MayBeNil(v); known && !possible {
+					return !wantNil, nil
+				}
+			}
+			return true, nil
+		})
+	}
+	return nil
+}
+
+// phiImplied intersects the guards of the incoming edges of phi that can
+// produce the outcome tested by g.
+func phiImplied(phi *ssa.Phi, g Guard, classify func(v ssa.Value, eg []Guard) (bool, *Guard)) []Guard {
+	b := phi.Block()
+	var acc []Guard
+	first := true
+	for i, v := range phi.Edges {
+		if i >= len(b.Preds) {
+			break
+		}
+		eg := EdgeGuards(b.Preds[i], b)
+		ok, extra := classify(v, eg)
+		if !ok {
+			continue
+		}
+		if extra != nil {
+			eg = append(eg, *extra)
+		}
+		if first {
+			acc = eg
+			first = false
+			continue
+		}
+		keep := acc[:0:0]
+		for _, a := range acc {
+			for _, e := range eg {
+				if a.Cond == e.Cond && a.Val == e.Val {
+					keep = append(keep, a)
+					break
+				}
+			}
+		}
+		acc = keep
+	}
+	return acc
+}
+
 // Guards returns the branch outcomes that dominate instruction in.
 func Guards(in ssa.Instruction) []Guard { return BlockGuards(in.Block()) }
 
@@ -537,17 +961,20 @@ func FindPath(fn *ssa.Function, from ssa.Instruction, to, avoid func(ssa.Instruc
 // returns true removed.
 func FindPathSkipping(fn *ssa.Function, from ssa.Instruction, to, avoid func(ssa.Instruction) bool, skipEdge func(from, to *ssa.BasicBlock) bool) []ssa.Instruction {
 	type node struct {
-		b    *ssa.BasicBlock
+		t    tnode
 		prev *node
-		hit  ssa.Instruction
 	}
 	if len(fn.Blocks) == 0 {
 		return nil
 	}
-	scan := func(b *ssa.BasicBlock, start int) (found ssa.Instruction, blocked bool) {
+	scan := func(pred, b *ssa.BasicBlock, start int) (found ssa.Instruction, blocked bool) {
 		for i := start; i < len(b.Instrs); i++ {
 			in := b.Instrs[i]
 			if to(in) {
+				if ret, ok := in.(*ssa.Return); ok && pred != nil && successTargets[ret] && ReturnEdgeFails(pred, ret) {
+					// a success return is wanted, and over this edge the return reports a failure
+					continue
+				}
 				return in, false
 			}
 			if avoid != nil && avoid(in) {
@@ -557,19 +984,20 @@ func FindPathSkipping(fn *ssa.Function, from ssa.Instruction, to, avoid func(ssa
 		return nil, false
 	}
 	var start *node
-	seen := map[*ssa.BasicBlock]bool{}
+	seen := map[tnode]bool{}
 	var queue []*node
 	if from == nil {
-		start = &node{b: fn.Blocks[0]}
-		seen[fn.Blocks[0]] = true
-		if f, blocked := scan(start.b, 0); f != nil {
+		start = &node{t: tnode{fn.Blocks[0], -1}}
+		seen[start.t] = true
+		if f, blocked := scan(nil, start.t.b, 0); f != nil {
 			return []ssa.Instruction{f}
 		} else if blocked {
 			return nil
 		}
 	} else {
-		start = &node{b: from.Block()}
-		if f, blocked := scan(start.b, idxIn(from)+1); f != nil {
+		// the block of `from` is entered in the middle: its final branch is open
+		start = &node{t: tnode{from.Block(), -1}}
+		if f, blocked := scan(nil, start.t.b, idxIn(from)+1); f != nil {
 			return []ssa.Instruction{from, f}
 		} else if blocked {
 			return nil
@@ -579,22 +1007,22 @@ func FindPathSkipping(fn *ssa.Function, from ssa.Instruction, to, avoid func(ssa
 	for len(queue) > 0 {
 		n := queue[0]
 		queue = queue[1:]
-		for _, s := range n.b.Succs {
+		for _, s := range n.t.succs() {
 			if seen[s] {
 				continue
 			}
-			if skipEdge != nil && skipEdge(n.b, s) {
+			if skipEdge != nil && skipEdge(n.t.b, s.b) {
 				continue
 			}
 			seen[s] = true
-			nn := &node{b: s, prev: n}
-			f, blocked := scan(s, 0)
+			nn := &node{t: s, prev: n}
+			f, blocked := scan(n.t.b, s.b, 0)
 			if f != nil {
 				var path []ssa.Instruction
 				path = append(path, f)
 				for x := nn; x != nil; x = x.prev {
-					if len(x.b.Instrs) > 0 && x != nn {
-						path = append(path, x.b.Instrs[len(x.b.Instrs)-1])
+					if len(x.t.b.Instrs) > 0 && x != nn {
+						path = append(path, x.t.b.Instrs[len(x.t.b.Instrs)-1])
 					}
 				}
 				// reverse
@@ -610,6 +1038,62 @@ func FindPathSkipping(fn *ssa.Function, from ssa.Instruction, to, avoid func(ssa
 		}
 	}
 	return nil
+}
+
+var successTargets = map[*ssa.Return]bool{}
+
+// MarkSuccessTarget declares that path searches ending at ret look for
+// successful ends: ret does not count when it is entered over an edge on which
+// it returns a known non-nil error (a result variable merged from several paths).
+func MarkSuccessTarget(ret *ssa.Return) { successTargets[ret] = true }
+
+// ReturnEdgeFails reports whether ret, entered from block pred, returns a known
+// non-nil error as its last result.
+func ReturnEdgeFails(pred *ssa.BasicBlock, ret *ssa.Return) bool {
+	if len(ret.Results) == 0 {
+		return false
+	}
+	phi, ok := ret.Results[len(ret.Results)-1].(*ssa.Phi)
+	b := ret.Block()
+	if !ok || phi.Block() != b {
+		return false
+	}
+	idx, n := -1, 0
+	for i, pr := range b.Preds {
+		if pr == pred {
+			idx = i
+			n++
+		}
+	}
+	if idx < 0 || n != 1 || idx >= len(phi.Edges) {
+		return false
+	}
+	in := phi.Edges[idx]
+	if IsNilConst(in) {
+		return false
+	}
+	if _, isPhi := in.(*ssa.Phi); isPhi {
+		return false
+	}
+	if possible, known := MayBeNil(in); known && !possible {
+		return true
+	}
+	for _, g := range append(directGuardsOfEdge(pred, b), plainGuards(pred)...) {
+		bo, ok := g.Cond.(*ssa.BinOp)
+		if !ok || (bo.Op != token.EQL && bo.Op != token.NEQ) {
+			continue
+		}
+		var t ssa.Value
+		if IsNilConst(bo.Y) {
+			t = bo.X
+		} else if IsNilConst(bo.X) {
+			t = bo.Y
+		}
+		if t != nil && t == in && (bo.Op == token.NEQ) == g.Val {
+			return true
+		}
+	}
+	return false
 }
 
 // PathStrings renders a path for diagnostics.
